@@ -152,6 +152,8 @@ pub struct NetState {
     listener_by_port: HashMap<u16, u64>,
     conns: HashMap<u64, Conn>,
     internet: Option<Rc<RefCell<dyn Internet>>>,
+    /// Every datagram handed to a `recv`/`recv_from` call, as received.
+    pub recv_log: Vec<(String, Vec<u8>)>,
     /// Every destination the host tried to reach, successful or not.
     pub dests: Vec<DestAttempt>,
     pub lives: Vec<SockLife>,
@@ -332,6 +334,9 @@ impl UdpSocket {
                         w.bump("net.udp_recv_truncated_to_buffer");
                     }
                     w.log_event("udp.recv", &format!("{label} <- {from} len={}", data.len()));
+                    if w.net.recv_log.len() < 100_000 {
+                        w.net.recv_log.push((label, data[..n].to_vec()));
+                    }
                     Poll::Ready(Ok((n, from)))
                 } else {
                     sock.waker = Some(cx.waker().clone());
